@@ -153,8 +153,10 @@ TAKEN = ("param", "taken_predicates")
 def rule_definition(ctx):
     """definition() decided per input shape: evaluated on `forall V (p(T) <-> B)` (V, T, B opaque) the refusals must be the six documented ones,
     each under exactly its own test, and the acceptance yields the defined predicate; every shape that misses the form is MalformedDefinition"""
-    from .. import leaves
+    from .. import leaves, collect
     fx = ctx.facts
+    # the head arguments are turned into variables by Variable::try_from: a `X$s` argument must not count as the general variable X
+    collect.check_variable_conversions(ctx, "TPL", fx, which=("try_from",))
     b = fx.fn("definition", impl_self="syntax_tree::fol::sigma_0::Formula")
     site = ctx.site(b)
     pn = [p_.get("name") for p_ in b["params"]]
